@@ -350,6 +350,10 @@ def run(chk):
     chk.compare("engine-vs-model", cases, impl, model)
     chk.sample({"case": cases[0], "impl": impl[0]})
     derive_stream(chk, 4000 if quick else 40000)
+    # history: dr.add_dependency between two registered components, between two evaluations through every entry point that
+    # builds the graph itself (shared with C01: the new member must be evaluated, and bound last, in declaration order)
+    from harness import c01
+    c01.late_dep_stream(chk, 400 if quick else 8000)
 
 
 def replay(data):
@@ -377,6 +381,9 @@ def replay(data):
         bad = rep.bad or got != model
         print("property violated on this input" if bad else "property holds on this input")
         return 1 if bad else 0
+    if data["case"].get("op") == "late-dep":
+        from harness import c01
+        return c01.replay_late_dep(data["case"])
     if data["case"].get("mode") == "second-evaluation":
         case = data["case"]
         world, seeds, graph = W.rebuild(case)
